@@ -27,6 +27,12 @@ def load_json(p, default=None):
         return default
 
 
+def is_internal_helper(name):
+    """display name of an unexported function or method (exported API functions must keep existing)"""
+    last = name.split(".")[-1].split("$")[0]
+    return bool(last) and (last[0].islower() or last[0] == "_")
+
+
 def sanitize(s):
     return re.sub(r"[^A-Za-z0-9_.=@#-]+", "_", s)[:150]
 
@@ -56,8 +62,11 @@ def main(argv=None):
     configs = pm.get("configs", ["verif"]) if tier == "quick" else pm.get("configs_thorough", pm.get("configs", ["verif"]))
     all_obs = []
     problems = []      # (kind, name, text, ob or None)
+    notes_missing = []
     fn_records = []
     libs = set()
+    two_solvers = [0, 0]
+    inlined_all = set()
     declassified = []
     exempt = []
     once_info = {}
@@ -93,6 +102,11 @@ def main(argv=None):
                 ms2 = [n for n in allfuncs if fnmatch.fnmatchcase(n, pat)]
                 if ms2:
                     problems.append(("binding", "%s#contract-binding/%s" % (pat, cfgname), "function %s exists but no contract binds to it" % pat, None))
+                elif is_internal_helper(pat):
+                    # an unexported helper was folded into its callers (or renamed): its contract has nothing to bind
+                    # to, and the callers -- which are still under contract -- are verified against their new bodies
+                    # (a call to a function without a contract is executed in line).  Reported in the evidence.
+                    notes_missing.append(pat)
                 else:
                     problems.append(("binding", "%s#contract-binding/%s" % (pat, cfgname), "function %s named by the property map no longer exists (renamed or removed); its contract cannot be checked" % pat, None))
             for n in ms:
@@ -161,6 +175,7 @@ def main(argv=None):
                 if lk != "none":
                     exempt.append("%s: leak %s" % (n, " ".join(t for k_, t in c_.other if k_ == "leak")))
         libs |= V.lib_used
+        inlined_all |= getattr(V, "inlined", set())
         assumed |= V.assumed
         bridges |= V.bridges_used
         math_used |= V.math_used
@@ -190,6 +205,11 @@ def main(argv=None):
             by_kind[ob.kind][1] += 1
             be = r.solver if not r.cached else "cache(" + r.solver + ")"
             by_backend[be] = by_backend.get(be, 0) + 1
+            if r.solver in smt.SOLVERS:
+                if getattr(r, "confirmed", 1) >= 2:
+                    two_solvers[0] += 1
+                else:
+                    two_solvers[1] += 1
         else:
             problems.append(("failed" if r.status == "sat" else "undischarged", ob.fullname, r.status, ob))
     # report
@@ -206,6 +226,48 @@ def main(argv=None):
             continue
         violations += 1
         todo.append((kind, name, text, ob))
+
+    sampled_cache = {}
+    import threading as _th
+    sampled_lock = _th.Lock()
+
+    def sampled(ob, rep):
+        """tier F: run the real function on sampled inputs within its precondition (once per function and partition)"""
+        from .sampled import sampled_replay
+        key = (ob.fn, ob.part, getattr(ob, "config", "default"))
+        with sampled_lock:
+            if key not in sampled_cache:
+                sampled_cache[key] = sampled_replay(a.repo, ob)
+            res = sampled_cache[key]
+        if res is None:
+            rep["sampled_replay"] = "not applicable to this function (a parameter type or a precondition has no generator / translation)"
+            return False
+        if res.get("__error__"):
+            rep["sampled_replay"] = "sampling harness did not run: " + res["__error__"][-600:]
+            return False
+        m = re.search(r"#(post|frame|panics?|nopanic|bounds)[.]?([^~@]*)", ob.name)
+        kind_, lab_ = (m.group(1), m.group(2)) if m else ("", "")
+        hit = None
+        if kind_ == "post" and lab_ in res:
+            hit = "ensures [%s] is false" % lab_
+        elif kind_ == "frame" and "__frame__" in res:
+            hit = res["__frame__"]
+        elif kind_ in ("nopanic", "bounds") and "__panic__" in res:
+            hit = res["__panic__"]
+        elif kind_.startswith("panic") and ("__nopanic__" in res or "__panic__" in res):
+            hit = res.get("__nopanic__") or res.get("__panic__")
+        others = sorted(k for k in res if not k.startswith("__"))
+        rep["sampled_replay_inputs_used"] = res.get("__used__")
+        if hit:
+            rep["replay"] = "REPRODUCED on the real code with a sampled input inside the precondition (trial %s): %s; inputs: %s" % (res.get("__trial__"), hit, res.get("__inputs__", "")[:3000])
+            rep["replay_test"] = res.get("__test__", "")
+            rep["replay_cmd"] = "go test -overlay <ov.json: govc_sampled_test.go, field/govc_accessor.go> -vet=off -run ^TestGovcSampled$"
+            return True
+        if others or any(k in res for k in ("__frame__", "__panic__", "__nopanic__")):
+            rep["sampled_replay"] = "a sampled input falsifies other clauses of this function (%s) but not this one; inputs: %s" % (", ".join(others + [k for k in ("__frame__", "__panic__", "__nopanic__") if k in res]), res.get("__inputs__", "")[:1500])
+        else:
+            rep["sampled_replay"] = "%s sampled inputs inside the precondition satisfied every translated clause" % res.get("__used__")
+        return False
 
     def report_one(item):
         kind, name, text, ob = item
@@ -225,6 +287,11 @@ def main(argv=None):
                     replayed = replay_obligation(a.repo, ob, rep)
                 except Exception as e:  # replay is best effort
                     rep["replay_error"] = "%s: %s" % (type(e).__name__, e)
+            if not replayed and not a.no_replay and ob.mode == "ring" and getattr(ob, "run", None) is not None:
+                try:
+                    replayed = sampled(ob, rep)
+                except Exception as e:
+                    rep["sampled_replay_error"] = "%s: %s" % (type(e).__name__, e)
             if not replayed:
                 tail = " no-failing-input-found"
                 rep["replay"] = rep.get("replay", "no failing input was reproduced on the real code; the obligation above is no longer discharged")
@@ -269,6 +336,8 @@ def main(argv=None):
             "by_kind": {k: {"generated": v[0], "discharged": v[1]} for k, v in sorted(by_kind.items())},
             "by_backend": by_backend,
             "solver_seconds": round(solver_secs, 2),
+            "smt_verdicts_confirmed_by_two_solvers": two_solvers[0],
+            "smt_verdicts_from_one_solver_only": two_solvers[1],
             "slowest_obligation": {"name": slowest[0], "secs": slowest[1]},
             "covers": covers,
             "ring_lemma_certificates_checked": ncerts,
@@ -284,11 +353,13 @@ def main(argv=None):
             "known_findings_hit": [k["id"] for k, _ in known_hits],
             "bounded": pm.get("bounded", []),
             "not_covered": pm.get("not_covered", []),
+            "contracts_without_a_function": sorted(set(notes_missing)),
+            "executed_in_line_without_contract": sorted("%s calls %s" % x for x in inlined_all),
             "samples": samples,
         },
         "assumptions": pm.get("assumptions", []) + [
             "extraction drops: the compiler below go/ssa, stack/heap distinction, allocation failure, panic texts, scheduling; int is 64 bits",
-            "an `unsat` from any one of z3 4.8.12 / z3 5.1.0 / cvc5 1.0 is believed (thorough: two must agree)"],
+            "an `unsat` from any one of z3 4.8.12 / z3 5.1.0 / cvc5 1.0 is believed; a `sat` or a disagreement is never overridden (thorough: a second solver is awaited for every obligation until the timeout; coverage.smt_verdicts_* counts how many verdicts two solvers confirmed)"],
         "wall_s": round(wall, 2),
         "violations": violations,
     }
